@@ -248,12 +248,6 @@ func registerNative2(ex *Exec) {
 		ex.OverApprox["fmt.Errorf(opaque)"]++
 		return ex.nativeError(st, "<formatted error>"), true
 	}
-	I["strings.Count"] = func(ex *Exec, st *State, args []Value, call ssa.CallInstruction) (Value, bool) {
-		return C.BVConst(uint64(strings.Count(cs(st, args[0], "Count"), cs(st, args[1], "Count"))), 64), true
-	}
-	I["strings.TrimSpace"] = func(ex *Exec, st *State, args []Value, call ssa.CallInstruction) (Value, bool) {
-		return ex.strConst(strings.TrimSpace(cs(st, args[0], "TrimSpace"))), true
-	}
 	// cron: no goroutine
 	I["github.com/krotik/common/timeutil.NewCron"] = func(ex *Exec, st *State, args []Value, call ssa.CallInstruction) (Value, bool) {
 		t := ex.Prog.ImportedPackage("github.com/krotik/common/timeutil").Type("Cron").Type()
